@@ -155,14 +155,16 @@ def posterior_valid_and_bayes(model, stream, obs, emb, init, num_classes, seed, 
                         f'{name}: at observation {i} the log_pdf of EVERY class is -inf (the observation lies more than '
                         f'~1e154 standard deviations from every component: squared distance overflows); '
                         f'log_pdf_to_affiliation computes -inf - (-inf) and returns NaN for that column')
-    if lp is not None and np.isfinite(lp).all() and np.all(wfull >= 0):
+    if lp is not None and not np.isnan(lp).any() and np.all(wfull >= 0):
         # hypothesis "every class has non-zero mass" (hden_of_positive_mass): a class whose stored weight is exactly 0
         # (it died during EM) but whose log-pdf exceeds every class with mass by more than the exp range floors the
         # denominator; such a model is outside the property's hypothesis
         mb0 = np.ones(shape, bool) if mask is None else np.broadcast_to(mask, shape)
         top = np.take_along_axis(wfull, np.argmax(lp, axis=-2)[..., None, :], axis=-2)[..., 0, :]
         best = np.where(mb0 & (wfull > 0), lp, -np.inf).max(-2)
-        if np.any((top == 0) & np.isfinite(best) & (lp.max(-2) - best > (80 if single else 700))):
+        with np.errstate(invalid='ignore'):
+            gap0 = lp.max(-2) - best
+        if np.any((top == 0) & np.isfinite(best) & np.isfinite(lp.max(-2)) & (gap0 > (80 if single else 700))):
             return Skip('a class without mass (stored weight 0) attains the maximal log-pdf by more than the exp range')
     if mask is not None and lp is not None and np.isfinite(lp).all() and np.isfinite(g).all():
         # the excluded point of the forced hypothesis `hden` (DESIGN.md C01): the arg-max class is inactive and every
